@@ -755,11 +755,19 @@ def run(ctx):
             fail(i, "C13/clip/shape", f"clip has shape {(c.nrows, c.ncols)}, the box covers rows {r1e}..{r0e}, "
                                       f"columns {c0e}..{c1e}")
             return
-        for mode, what in compare_values(np.ascontiguousarray(vals[r1e:r0e + 1, c0e:c1e + 1]), c, "Grid.clip"):
+        # "holds exactly the parent's values": bit comparison when the type is kept, exact numeric
+        # comparison (Python int/float semantics, NaN = NaN) otherwise - the statement fixes no type here
+        want = np.ascontiguousarray(vals[r1e:r0e + 1, c0e:c1e + 1])
+        if c.data.dtype == want.dtype:
+            vfails = compare_values(want, c, "Grid.clip")
+        else:
+            vfails = []
+            for wv, gv in zip(want.ravel().tolist(), np.asarray(c.data).ravel().tolist()):
+                if not (wv == gv or (wv != wv and gv != gv)):
+                    vfails = [("values", f"Grid.clip: parent value {wv!r} became {gv!r}")]
+                    break
+        for mode, what in vfails:
             fail(i, f"C13/clip/{mode}", what + f" (parent {nrows}x{ncols}, rows {r1e}..{r0e}, columns {c0e}..{c1e})")
-        if np.dtype(c.dtype) != dt or not same_float(float(c.nodata), float(g.nodata)) or \
-                float(c.cellsize) != float(g.cellsize):
-            fail(i, "C13/clip/attributes", "clip changes dtype, no-data value or cell size")
         # coinciding centres: clip cell (a, b) has the centre of parent cell (r1e+a, c0e+b)
         cc = c.cell2coord(np.arange(c.nrows * c.ncols))
         tol = 1e-9 * csz + 4e-16 * (abs(xll) + abs(yll) + csz * (nrows + ncols))
